@@ -31,11 +31,14 @@ func TestVerifXEnv(t *testing.T) {
 	t.Setenv("VV", "val ue")
 	t.Setenv("VW", "$VV(x)")
 	t.Setenv("V_2", "é-${VV}")
+	t.Setenv("VC", "$(pkg-config --libs q)") // a value that looks like a command: must be substituted verbatim, never run
+	t.Setenv("VD", "-L/opt/$(uname -m)/lib")
 	os.Unsetenv("VU")
 	pieces := []piece{
 		{"lit", "lit", false}, {"-la", "-la", false}, {" ", " ", false}, {"/", "/", false},
 		{"$VV", "val ue", false}, {"${VV}", "val ue", false}, {"$VW", "$VV(x)", false}, {"${V_2}", "é-${VV}", false},
 		{"$VU", "", false}, {"${VU}", "", false},
+		{"${VC}", "$(pkg-config --libs q)", false}, {"$VD", "-L/opt/$(uname -m)/lib", false},
 		{"$(pkg-config --libs foo)", `-L/opt/foo\ bar/lib -lfoo`, true},
 		{"$(pkg-config --libs two)", "-lx -ly", true},
 		{"$( pkg-config  --libs   zed )", "-lzed", true},
